@@ -188,6 +188,7 @@ type wctx struct {
 	confirm  bool
 	trust    signers.VerifyOpts
 	tsReq    map[int]*pkcs9.TimeStampReq
+	bodyDir  string // C11_BODYDIR: the "transform" entry stores the upload stream there (server phase)
 	msample  [1]metrics.Sample
 	// current entry, for the runaway-growth watchdog
 	curCase, curEntry atomic.Int64
@@ -240,7 +241,7 @@ func workerMain() {
 	}
 	runtime.GOMAXPROCS(procs)
 	relicx.Quiet()
-	w := &wctx{confirm: os.Getenv("C11_CONFIRM") != "", tsReq: map[int]*pkcs9.TimeStampReq{}}
+	w := &wctx{confirm: os.Getenv("C11_CONFIRM") != "", tsReq: map[int]*pkcs9.TimeStampReq{}, bodyDir: os.Getenv("C11_BODYDIR")}
 	w.msample[0].Name = "/gc/heap/allocs:bytes"
 	blob, err := os.ReadFile(os.Getenv("C11_MANIFEST"))
 	must(err)
@@ -621,7 +622,14 @@ func (w *wctx) runPkg(s *Seed, entry, path string, data []byte) error {
 		if err != nil {
 			return err
 		}
-		_, err = io.Copy(io.Discard, r)
+		var dst io.Writer = io.Discard
+		if w.bodyDir != "" {
+			bf, err := os.Create(filepath.Join(w.bodyDir, strconv.FormatInt(w.curCase.Load(), 10)))
+			must(err)
+			defer bf.Close()
+			dst = bf
+		}
+		_, err = io.Copy(dst, r)
 		return err
 	case "sign":
 		cert, opts, err := w.signOpts(mod, path)
